@@ -466,7 +466,7 @@ class FuncEmitter:
         if op in self.ctx.uf_float:
             sfx = 'f32' if kind == 'float' else 'f64'
             self.ctx.trusted.add('relational abstraction: %s as an uninterpreted function (sound for equalities between two runs)' % op)
-            return 'LL2C_UF2(%s_%s, %s, %s, %s)' % (op, sfx, {'fmul': '*', 'fdiv': '/'}[op], a, b)
+            return 'LL2C_UF2(%s_%s, %s, %s, %s)' % (op, sfx, {'fmul': '*', 'fdiv': '/', 'fadd': '+', 'fsub': '-'}[op], a, b)
         c = {'fadd': '+', 'fsub': '-', 'fmul': '*', 'fdiv': '/'}[op]
         return '(%s %s %s)' % (a, c, b)
 
@@ -716,6 +716,14 @@ class FuncEmitter:
                 for i in range(st[1]):
                     e = self.cast(op, st[2], dt[2], '%s.e[%d]' % (tx, i))
                     self.out.append('%s.e[%d] = %s;' % (self.lname(ins.res), i, e))
+                return
+            if op == 'bitcast' and st[0] == 'vector' and m.resolve(st[2]) == ('int', 1) and dt[0] == 'int' and dt[1] == st[1]:
+                # <N x i1> -> iN (movemask idiom): lane i becomes bit i
+                self.assign(ins.res, self.trunc_to(' | '.join('((u32)%s.e[%d] << %d)' % (x, i, i) for i in range(st[1])), dt[1]))
+                return
+            if op == 'bitcast' and dt[0] == 'vector' and m.resolve(dt[2]) == ('int', 1) and st[0] == 'int' and st[1] == dt[1]:
+                for i in range(dt[1]):
+                    self.out.append('%s.e[%d] = (u8)((%s >> %d) & 1);' % (self.lname(ins.res), i, x, i))
                 return
             e = self.cast(op, st, dt, x) if not (st[0] in ('vector',) or dt[0] in ('vector',)) else None
             if e is None:
@@ -1202,12 +1210,83 @@ class FuncEmitter:
             self.out.append('%s.f1 = (u8)%s;' % (rn, ov))
             return
         if name.startswith('llvm.x86.'):
-            self.ctx.used_ext.add(('x86', name))
-            self.ctx.trusted.add('x86-intrinsic-model:' + name)
-            call = 'LL2C_X86_%s(%s)' % (sanitize(name[len('llvm.x86.'):]), ', '.join(A))
-            self.finish_call(ins, call)
+            self.emit_x86(ins, name, args, A)
             return
         raise Unsupported('intrinsic ' + name)
+
+    def emit_x86(self, ins, name, args, A):
+        """lane-wise models of the few x86 intrinsics that survive in the IR of GLM's SIMD paths, written from the Intel SDM
+        pseudo-code (TRUSTED; listed in the evidence)"""
+        self.ctx.used_ext.add(('x86', name))
+        self.ctx.trusted.add('x86-intrinsic-model (Intel SDM pseudo-code): ' + name)
+        r = self.lname(ins.res) if ins.res is not None else None
+        short = name[len('llvm.x86.'):]
+
+        def imm(k):
+            v = args[k][1]
+            if v[0] != 'int':
+                raise Unsupported('non-constant immediate of ' + name)
+            return v[1] & 0xff
+        if short in ('sse.min.ps', 'sse.max.ps', 'sse2.min.pd', 'sse2.max.pd'):
+            # MINPS: dst = (src1 < src2) ? src1 : src2   (NaN or both zero: second operand)
+            n = 4 if short.endswith('ps') else 2
+            c = '<' if '.min.' in short else '>'
+            for i in range(n):
+                self.out.append('%s.e[%d] = (%s.e[%d] %s %s.e[%d]) ? %s.e[%d] : %s.e[%d];' % (r, i, A[0], i, c, A[1], i, A[0], i, A[1], i))
+            return
+        if short in ('sse.min.ss', 'sse.max.ss'):
+            c = '<' if '.min.' in short else '>'
+            self.out.append('%s = %s;' % (r, A[0]))
+            self.out.append('%s.e[0] = (%s.e[0] %s %s.e[0]) ? %s.e[0] : %s.e[0];' % (r, A[0], c, A[1], A[0], A[1]))
+            return
+        if short in ('sse.cmp.ss', 'sse.cmp.ps'):
+            pred = imm(2) & 7
+            tbl = {0: '(X == Y)', 1: '(X < Y)', 2: '(X <= Y)', 3: '(X != X || Y != Y)', 4: '(X != Y)', 5: '(!(X < Y))', 6: '(!(X <= Y))', 7: '(X == X && Y == Y)'}
+            lanes = [0] if short.endswith('.ss') else [0, 1, 2, 3]
+            if short.endswith('.ss'):
+                self.out.append('%s = %s;' % (r, A[0]))
+            for i in lanes:
+                e = tbl[pred].replace('X', '\x00').replace('Y', '\x01').replace('\x00', '%s.e[%d]' % (A[0], i)).replace('\x01', '%s.e[%d]' % (A[1], i))
+                self.out.append('%s.e[%d] = ll2c_bits_f32(%s ? 0xffffffffu : 0u);' % (r, i, e))
+            return
+        if short == 'ssse3.psign.d.128':
+            # PSIGND: dst = (src2 < 0) ? -src1 : ((src2 == 0) ? 0 : src1)   per 32-bit lane
+            for i in range(4):
+                self.out.append('%s.e[%d] = ((s32)%s.e[%d] < 0) ? (u32)(0u - %s.e[%d]) : (%s.e[%d] == 0 ? 0u : %s.e[%d]);' % (r, i, A[1], i, A[0], i, A[1], i, A[0], i))
+            return
+        if short == 'sse3.hadd.ps':
+            self.out.append('%s.e[0] = %s.e[0] + %s.e[1]; %s.e[1] = %s.e[2] + %s.e[3]; %s.e[2] = %s.e[0] + %s.e[1]; %s.e[3] = %s.e[2] + %s.e[3];' % (
+                r, A[0], A[0], r, A[0], A[0], r, A[1], A[1], r, A[1], A[1]))
+            return
+        if short in ('sse41.round.ps', 'sse41.round.pd'):
+            m = imm(1)
+            fn = {0: 'nearbyint', 1: 'floor', 2: 'ceil', 3: 'trunc'}[m & 3] if not (m & 4) else 'nearbyint'
+            n = 4 if short.endswith('ps') else 2
+            suf = 'f' if short.endswith('ps') else ''
+            self.ctx.used_ext.add(('libm', fn + suf))
+            for i in range(n):
+                self.out.append('%s.e[%d] = LL2C_LIBM_%s%s(%s.e[%d]);' % (r, i, fn, suf, A[0], i))
+            return
+        if short == 'sse41.dpps':
+            m = imm(2)
+            t = [('%s' % self.float_binop('fmul', '%s.e[%d]' % (A[0], i), '%s.e[%d]' % (A[1], i), 'float')) if (m >> (4 + i)) & 1 else '0.0f' for i in range(4)]
+            tmp = self.tmp('float')
+            self.out.append('%s = ((%s + %s) + (%s + %s));' % (tmp, t[0], t[1], t[2], t[3]))
+            for i in range(4):
+                self.out.append('%s.e[%d] = %s;' % (r, i, tmp if (m >> i) & 1 else '0.0f'))
+            return
+        if short in ('sse.rsqrt.ps', 'sse.rcp.ps', 'sse.rsqrt.ss', 'sse.rcp.ss'):
+            # hardware approximations (relative error <= 1.5 * 2^-12): uninterpreted per-lane functions
+            fn = 'rsqrt' if 'rsqrt' in short else 'rcp'
+            self.ctx.uf_decls.add('float __CPROVER_uninterpreted_x86_%s(float);' % fn)
+            self.ctx.trusted.add('x86 %s approximation: uninterpreted (only "same function of the same bits" is provable)' % fn)
+            lanes = [0] if short.endswith('.ss') else [0, 1, 2, 3]
+            if short.endswith('.ss'):
+                self.out.append('%s = %s;' % (r, A[0]))
+            for i in lanes:
+                self.out.append('%s.e[%d] = LL2C_X86APPROX(%s, %s.e[%d]);' % (r, i, fn, A[0], i))
+            return
+        raise Unsupported('x86 intrinsic ' + name)
 
     # ---------------------------------------------------------- function
     def emit(self):
